@@ -118,27 +118,66 @@ theorem templatesOf_pairwise (st sc : List Nat) (c : Nat) :
     (templatesOf st sc c).Pairwise (· < ·) :=
   (PhyVerif.C07.Lemmas.unique_spec _).1
 
-/-- the table for every index (also beyond the largest id) and its length -/
-theorem mergeMap_getD (st sc : List Nat) (hlen : st.length = sc.length) (c : Nat) :
-    (mergeMap st sc).getD c [] = templatesOf st sc c ∧
+/-- members of the zipped assignment, without any length condition -/
+theorem mem_zip_imp (st sc : List Nat) (t c : Nat) (h : (t, c) ∈ st.zip sc) :
+    ∃ i, i < st.length ∧ st.getD i 0 = t ∧ sc.getD i 0 = c := by
+  rw [List.mem_iff_getElem?] at h
+  obtain ⟨i, hi⟩ := h
+  rw [List.getElem?_zip_eq_some] at hi
+  obtain ⟨h1, h2⟩ := hi
+  have hlt : i < st.length := by
+    rcases Nat.lt_or_ge i st.length with h | h
+    · exact h
+    · rw [List.getElem?_eq_none h] at h1; cases h1
+  exact ⟨i, hlt, by rw [List.getD_eq_getElem?_getD, h1]; rfl,
+    by rw [List.getD_eq_getElem?_getD, h2]; rfl⟩
+
+/-- the table for every index as a filter of the distinct templates, and its length — for
+assignment arrays of ANY lengths -/
+theorem mergeMap_getD_gen (st sc : List Nat) (c : Nat) :
+    (mergeMap st sc).getD c [] =
+      (Np.unique (st.map Int.ofNat)).filter (fun t => decide (c ∈ mapping st sc t)) ∧
     (mergeMap st sc).length = sc.foldl max 0 + 1 := by
   rw [mergeMap_eq]
   obtain ⟨h1, h2⟩ := outer_fold (mapping st sc) (sc.foldl max 0 + 1) (Np.unique (st.map Int.ofNat))
     (fun t _ => mapping_nodup st sc t)
     (fun t _ n hn => by
-      obtain ⟨i, hi, _, h3⟩ := (mem_mapping st sc t n).1 hn
-      have hi' : i < sc.length := hlen ▸ hi
-      have : n ∈ sc := by
-        rw [← h3, List.getD_eq_getElem?_getD, List.getElem?_eq_getElem hi']
-        exact List.getElem_mem hi'
-      have := mem_sc_le sc n this
-      omega)
+      obtain ⟨i, _, _, h3⟩ := (mem_mapping st sc t n).1 hn
+      by_cases hi' : i < sc.length
+      · have : n ∈ sc := by
+          rw [← h3, List.getD_eq_getElem?_getD, List.getElem?_eq_getElem hi']
+          exact List.getElem_mem hi'
+        have := mem_sc_le sc n this
+        omega
+      · rw [List.getD_eq_getElem?_getD, List.getElem?_eq_none (by omega)] at h3
+        simp only [Option.getD_none] at h3
+        omega)
     (List.replicate (sc.foldl max 0 + 1) []) (by simp)
   refine ⟨?_, h1⟩
   rw [h2 c]
   have hrep : (List.replicate (sc.foldl max 0 + 1) ([] : List Nat)).getD c [] = [] := by
     rw [List.getD_eq_getElem?_getD, List.getElem?_replicate]; split <;> rfl
   rw [hrep, List.nil_append]
+
+/-- every template of cluster `c` is listed in the table (any lengths) -/
+theorem mem_mergeMap_of_mem_templatesOf (st sc : List Nat) (c t : Nat) (h : t ∈ templatesOf st sc c) :
+    t ∈ (mergeMap st sc).getD c [] := by
+  rw [mem_templatesOf] at h
+  obtain ⟨i, hi, h1, h2⟩ := mem_zip_imp st sc t c h
+  rw [(mergeMap_getD_gen st sc c).1, List.mem_filter, (PhyVerif.C07.Lemmas.unique_spec _).2 t,
+    decide_eq_true_eq, mem_mapping]
+  refine ⟨?_, i, hi, h1, h2⟩
+  show Int.ofNat t ∈ List.map Int.ofNat st
+  rw [List.mem_map]
+  exact ⟨t, (List.of_mem_zip h).1, rfl⟩
+
+/-- the table for every index (also beyond the largest id) and its length -/
+theorem mergeMap_getD (st sc : List Nat) (hlen : st.length = sc.length) (c : Nat) :
+    (mergeMap st sc).getD c [] = templatesOf st sc c ∧
+    (mergeMap st sc).length = sc.foldl max 0 + 1 := by
+  obtain ⟨h2, h1⟩ := mergeMap_getD_gen st sc c
+  refine ⟨?_, h1⟩
+  rw [h2]
   apply PhyVerif.C17.Lemmas.eq_of_pairwise_lt_of_mem_iff
   · exact List.Pairwise.filter _ (PhyVerif.C07.Lemmas.unique_spec _).1
   · exact templatesOf_pairwise st sc c
@@ -155,11 +194,9 @@ theorem mergeMap_getD (st sc : List Nat) (hlen : st.length = sc.length) (c : Nat
       rw [← h1, List.getD_eq_getElem?_getD, List.getElem?_eq_getElem hi]
       exact List.getElem_mem hi
 
-theorem mergeMap_spec (st sc : List Nat) (hlen : st.length = sc.length) (c : Nat)
-    (hc : c ≤ sc.foldl max 0) :
-    (mergeMap st sc).getD c [] = templatesOf st sc c ∧ (mergeMap st sc).length = sc.foldl max 0 + 1 := by
-  have _ := hc
-  exact mergeMap_getD st sc hlen c
+theorem mergeMap_spec (st sc : List Nat) (hlen : st.length = sc.length) (c : Nat) :
+    (mergeMap st sc).getD c [] = templatesOf st sc c ∧ (mergeMap st sc).length = sc.foldl max 0 + 1 :=
+  mergeMap_getD st sc hlen c
 
 theorem nanIdx_spec (st sc : List Nat) (hlen : st.length = sc.length) (c : Nat) :
     c ∈ nanIdx (mergeMap st sc) ↔ (c ≤ sc.foldl max 0 ∧ c ∉ sc) := by
@@ -186,10 +223,17 @@ theorem nanIdx_spec (st sc : List Nat) (hlen : st.length = sc.length) (c : Nat) 
 
 /-! ### waveforms -/
 
+/-- a cluster with at least one template has a spike, so its id is at most the largest id -/
+theorem le_max_of_mem_templatesOf (st sc : List Nat) (c t : Nat) (h : t ∈ templatesOf st sc c) :
+    c ≤ sc.foldl max 0 := by
+  rw [mem_templatesOf] at h
+  exact mem_sc_le sc c (List.of_mem_zip h).2
+
 theorem single_template_unchanged (W : List Mat) (chans : List (List Nat)) (st sc : List Nat)
-    (hlen : st.length = sc.length) (ns nc c t : Nat) (hc : c ≤ sc.foldl max 0)
+    (hlen : st.length = sc.length) (ns nc c t : Nat)
     (h1 : templatesOf st sc c = [t]) :
     (clusterWaveforms W chans st sc ns nc).getD c [] = W.getD t [] := by
+  have hc : c ≤ sc.foldl max 0 := le_max_of_mem_templatesOf st sc c t (by rw [h1]; simp)
   obtain ⟨hm1, hm2⟩ := mergeMap_getD st sc hlen c
   have hclt : c < (mergeMap st sc).length := by omega
   unfold clusterWaveforms
@@ -325,66 +369,132 @@ theorem uncurated_identity (W : List Mat) (chans : List (List Nat)) (st : List N
   unfold loadClusters
   simp
 
+theorem getD_map_range_ge {α : Type} (f : Nat → α) (n i : Nat) (d : α) (h : n ≤ i) :
+    ((List.range n).map f).getD i d = d := by
+  rw [List.getD_eq_getElem?_getD, List.getElem?_eq_none (by simpa using h)]; rfl
+
+/-- entries outside the `(ns, nc)` shape of a template read as zero -/
+theorem W_entry_zero (W : List Mat) (ns nc : Nat)
+    (hW : ∀ M ∈ W, M.length = ns ∧ ∀ row ∈ M, row.length = nc) (t s ch : Nat) (ht : t < W.length)
+    (h : ¬ (s < ns ∧ ch < nc)) : ((W.getD t []).getD s []).getD ch 0 = 0 := by
+  have hM : W.getD t [] ∈ W := by
+    rw [List.getD_eq_getElem?_getD, List.getElem?_eq_getElem ht]; exact List.getElem_mem ht
+  obtain ⟨hl, hrow⟩ := hW _ hM
+  generalize W.getD t [] = M at hl hrow
+  by_cases hs : s < M.length
+  · have hr : M.getD s [] ∈ M := by
+      rw [List.getD_eq_getElem?_getD, List.getElem?_eq_getElem hs]; exact List.getElem_mem hs
+    have := hrow _ hr
+    rw [List.getD_eq_getElem?_getD (i := ch), List.getElem?_eq_none (by omega)]; rfl
+  · rw [List.getD_eq_getElem?_getD (i := s), List.getElem?_eq_none (by omega)]; rfl
+
+theorem weightedMean_zero (W : List Mat) (chans : List (List Nat)) (st sc : List Nat) (c s ch : Nat)
+    (hz : ∀ t ∈ templatesOf st sc c, ((W.getD t []).getD s []).getD ch 0 = 0) :
+    weightedMean W chans st sc c s ch = 0 := by
+  unfold weightedMean
+  simp only []
+  have e : (templatesOf st sc c).map (fun t => (countOf st sc t c : Rat) *
+        (if (chans.getD t []).contains ch then ((W.getD t []).getD s []).getD ch 0 else 0)) =
+      (templatesOf st sc c).map (fun _ => (0 : Rat)) := by
+    apply List.map_congr_left
+    intro t ht
+    rw [hz t ht, ite_self, Rat.mul_zero]
+  have e0 : ∀ l : List Nat, (l.map fun _ => (0 : Rat)).sum = 0 := by
+    intro l
+    induction l with
+    | nil => rfl
+    | cons a l ih => rw [List.map_cons, List.sum_cons, ih, Rat.zero_add]
+  rw [e, e0, Rat.div_def, Rat.zero_mul]
+
 theorem multi_template_weighted_mean (W : List Mat) (chans : List (List Nat)) (st sc : List Nat)
-    (hlen : st.length = sc.length) (hst : ∀ t ∈ st, t < W.length) (ns nc c : Nat)
-    (hc : c ≤ sc.foldl max 0) (hmulti : 2 ≤ (templatesOf st sc c).length)
+    (hst : ∀ t ∈ st, t < W.length) (ns nc c : Nat)
+    (hmulti : 2 ≤ (templatesOf st sc c).length)
     (hW : ∀ M ∈ W, M.length = ns ∧ ∀ row ∈ M, row.length = nc)
-    (hch : ∀ l ∈ chans, l.Nodup ∧ ∀ ch ∈ l, ch < nc) (hcl : chans.length = W.length)
-    (s ch : Nat) (hs : s < ns) (hchn : ch < nc) :
+    (s ch : Nat) :
     (((clusterWaveforms W chans st sc ns nc).getD c []).getD s []).getD ch 0 =
       if (chans.getD (argmaxNat (templateCounts st sc W.length c)) []).contains ch
       then weightedMean W chans st sc c s ch else 0 := by
-  have _ := hch
-  have _ := hcl
-  obtain ⟨hm1, hm2⟩ := mergeMap_getD st sc hlen c
+  -- two distinct templates of the cluster, both listed in the merge map
+  obtain ⟨a, b, hab, ha, hb⟩ : ∃ a b, a < b ∧ a ∈ templatesOf st sc c ∧ b ∈ templatesOf st sc c := by
+    have hpw := templatesOf_pairwise st sc c
+    rcases hT : templatesOf st sc c with _ | ⟨a, _ | ⟨b, r⟩⟩
+    · rw [hT] at hmulti; simp at hmulti
+    · rw [hT] at hmulti; simp at hmulti
+    · rw [hT, List.pairwise_cons] at hpw
+      exact ⟨a, b, hpw.1 b (by simp), by simp, by simp⟩
+  have hc : c ≤ sc.foldl max 0 := le_max_of_mem_templatesOf st sc c a ha
+  have hm2 := (mergeMap_getD_gen st sc c).2
   have hclt : c < (mergeMap st sc).length := by omega
-  unfold clusterWaveforms
-  simp only []
-  rw [getD_map_range _ _ _ _ hclt, hm1]
-  generalize hT : templatesOf st sc c = T at hmulti
-  rcases T with _ | ⟨a, _ | ⟨b, r⟩⟩
-  · simp at hmulti
-  · simp at hmulti
-  simp only []
-  rw [getD_map_range _ _ _ _ hs, getD_map_range _ _ _ _ hchn]
-  have hfst : (clusterMean W chans st sc c).fst =
-      chans.getD (argmaxNat (templateCounts st sc W.length c)) [] := rfl
-  rw [hfst]
-  split
-  · rename_i hcont
-    have hmem : ch ∈ chans.getD (argmaxNat (templateCounts st sc W.length c)) [] := by
-      simpa using hcont
-    have ha : a < W.length := by
-      have : a ∈ templatesOf st sc c := by rw [hT]; simp
-      rw [mem_templatesOf] at this
-      exact hst a (List.of_mem_zip this).1
-    have hbest : argmaxNat (templateCounts st sc W.length c) < W.length :=
-      (dominant_has_max_count st sc W.length c (by omega)).1
-    have hns : (W.getD (argmaxNat (templateCounts st sc W.length c)) []).length = ns := by
-      rw [List.getD_eq_getElem?_getD, List.getElem?_eq_getElem hbest]
-      exact (hW _ (List.getElem_mem hbest)).1
-    unfold clusterMean
+  have hma := mem_mergeMap_of_mem_templatesOf st sc c a ha
+  have hmb := mem_mergeMap_of_mem_templatesOf st sc c b hb
+  have haW : a < W.length := by
+    rw [mem_templatesOf] at ha
+    exact hst a (List.of_mem_zip ha).1
+  by_cases hin : s < ns ∧ ch < nc
+  · obtain ⟨hs, hchn⟩ := hin
+    unfold clusterWaveforms
     simp only []
-    rw [hns, getD_map_range _ _ _ _ hs, getD_map_idxOf _ _ _ _ hmem, ids_eq st sc W.length c hst]
-    unfold weightedMean
+    rw [getD_map_range _ _ _ _ hclt]
+    generalize (mergeMap st sc).getD c [] = T at hma hmb
+    rcases T with _ | ⟨x, _ | ⟨y, r⟩⟩
+    · simp at hma
+    · simp at hma hmb; omega
     simp only []
-    have hcnt : ∀ t ∈ templatesOf st sc c,
-        (templateCounts st sc W.length c).getD t 0 = countOf st sc t c := by
+    rw [getD_map_range _ _ _ _ hs, getD_map_range _ _ _ _ hchn]
+    have hfst : (clusterMean W chans st sc c).fst =
+        chans.getD (argmaxNat (templateCounts st sc W.length c)) [] := rfl
+    rw [hfst]
+    split
+    · rename_i hcont
+      have hmem : ch ∈ chans.getD (argmaxNat (templateCounts st sc W.length c)) [] := by
+        simpa using hcont
+      have hbest : argmaxNat (templateCounts st sc W.length c) < W.length :=
+        (dominant_has_max_count st sc W.length c (by omega)).1
+      have hns : (W.getD (argmaxNat (templateCounts st sc W.length c)) []).length = ns := by
+        rw [List.getD_eq_getElem?_getD, List.getElem?_eq_getElem hbest]
+        exact (hW _ (List.getElem_mem hbest)).1
+      unfold clusterMean
+      simp only []
+      rw [hns, getD_map_range _ _ _ _ hs, getD_map_idxOf _ _ _ _ hmem, ids_eq st sc W.length c hst]
+      unfold weightedMean
+      simp only []
+      have hcnt : ∀ t ∈ templatesOf st sc c,
+          (templateCounts st sc W.length c).getD t 0 = countOf st sc t c := by
+        intro t ht
+        rw [mem_templatesOf] at ht
+        exact templateCounts_getD _ _ _ _ _ (hst t (List.of_mem_zip ht).1)
+      have e1 : (templatesOf st sc c).map (fun t => (templateCounts st sc W.length c).getD t 0) =
+          (templatesOf st sc c).map (fun t => countOf st sc t c) :=
+        List.map_congr_left hcnt
+      have e2 : (templatesOf st sc c).map (fun t =>
+            ((templateCounts st sc W.length c).getD t 0 : Rat) *
+              (List.getD (onChannels (W.getD t []) (chans.getD t [])) s []).getD ch 0) =
+          (templatesOf st sc c).map (fun t => (countOf st sc t c : Rat) *
+            (if (chans.getD t []).contains ch then ((W.getD t []).getD s []).getD ch 0 else 0)) := by
+        apply List.map_congr_left
+        intro t ht
+        rw [hcnt t ht, onChannels_getD]
+      rw [e1, e2]
+    · rfl
+  · -- outside the `(ns, nc)` block both sides are zero
+    have hR : weightedMean W chans st sc c s ch = 0 := by
+      apply weightedMean_zero
       intro t ht
       rw [mem_templatesOf] at ht
-      exact templateCounts_getD _ _ _ _ _ (hst t (List.of_mem_zip ht).1)
-    have e1 : (templatesOf st sc c).map (fun t => (templateCounts st sc W.length c).getD t 0) =
-        (templatesOf st sc c).map (fun t => countOf st sc t c) :=
-      List.map_congr_left hcnt
-    have e2 : (templatesOf st sc c).map (fun t =>
-          ((templateCounts st sc W.length c).getD t 0 : Rat) *
-            (List.getD (onChannels (W.getD t []) (chans.getD t [])) s []).getD ch 0) =
-        (templatesOf st sc c).map (fun t => (countOf st sc t c : Rat) *
-          (if (chans.getD t []).contains ch then ((W.getD t []).getD s []).getD ch 0 else 0)) := by
-      apply List.map_congr_left
-      intro t ht
-      rw [hcnt t ht, onChannels_getD]
-    rw [e1, e2]
-  · rfl
+      exact W_entry_zero W ns nc hW t s ch (hst t (List.of_mem_zip ht).1) hin
+    rw [hR]
+    unfold clusterWaveforms
+    simp only []
+    rw [getD_map_range _ _ _ _ hclt]
+    generalize (mergeMap st sc).getD c [] = T at hma hmb
+    rcases T with _ | ⟨x, _ | ⟨y, r⟩⟩
+    · simp at hma
+    · simp at hma hmb; omega
+    simp only []
+    by_cases hs : s < ns
+    · rw [getD_map_range _ _ _ _ hs, getD_map_range_ge _ _ _ _ (by omega)]
+      simp
+    · rw [getD_map_range_ge _ _ _ _ (by omega)]
+      simp
 
 end PhyVerif.C08.Lemmas
